@@ -58,8 +58,33 @@ def _cases(draw):
     specs = [gen.spec_of(d) for d in docs]
     deps = gen.universe_deps(docs)
     bydoc = dict(zip(specs, docs))
-    mode = draw(st.sampled_from(['default', 'lexicon', 'lexicon', 'lexicon', 'lang']))
+    mode = draw(st.sampled_from(['default', 'lexicon', 'lexicon', 'lexicon', 'lang', 'placeholder', 'placeholder']))
     sel = {'lexicon': None, 'lang': None, 'expand': None}
+    if mode == 'placeholder':
+        # constructed: a:1 selected and expanded over b:1 so that a:1's first synset reaches an
+        # ILI only b:1 has (a placeholder); an outsider carries that ILI with relations of its own
+        third = [s for s in specs if s in ('a:2', 'r:1')]
+        if 'b:1' in bydoc and third and len(bydoc['b:1'].get('synsets', [])) >= 2:
+            a1, b1 = bydoc['a:1'], bydoc['b:1']
+            a1['synsets'][0]['ili'] = 'iq'
+            b1['synsets'][0]['ili'] = 'iq'
+            b1['synsets'][1]['ili'] = 'ip'
+            b1['synsets'][0].setdefault('relations', []).append(
+                {'target': b1['synsets'][1]['id'], 'relType': 'hypernym', 'meta': None})
+            for t in third:
+                o = bydoc[t]
+                if not o.get('synsets'):
+                    continue
+                o['synsets'][0]['ili'] = 'ip'
+                if len(o['synsets']) >= 2:
+                    o['synsets'][1]['ili'] = draw(st.sampled_from(['ir', 'iq', 'ip']))
+                    o['synsets'][0].setdefault('relations', []).append(
+                        {'target': o['synsets'][1]['id'], 'relType': 'hypernym', 'meta': None})
+            sel['lexicon'], sel['expand'] = 'a:1', 'b:1'
+            insiders = ['a:1', 'b:1']
+            outsiders = [s for s in specs if s not in insiders]
+            return {'universe': u, 'selection': sel, 'insiders': insiders, 'outsiders': outsiders}
+        mode = 'lexicon'
     if mode == 'default':
         sel['expand'] = draw(st.sampled_from([None, '']))
         return {'universe': u, 'selection': sel, 'insiders': specs, 'outsiders': []}
@@ -144,6 +169,12 @@ def _classify(case):
         if set(ei) & set(se) or set(ssi) & set(sss):
             tags.append('outsider-shares-ids')
             nt = True
+    if (case['selection']['expand'] == 'b:1' and 'a:1' in bydoc
+            and bydoc['a:1'].get('synsets') and bydoc['a:1']['synsets'][0].get('ili') == 'iq'
+            and any(sy.get('ili') == 'ip' for o in case['outsiders']
+                    for sy in bydoc[o].get('synsets', []))):
+        tags.append('outsider-shares-ili-with-placeholder')
+        nt = True
     if not case['outsiders'] and tags[0] == 'mode:default':
         nt = len(docs) > 1
     return nt, sorted(set(tags))
@@ -402,5 +433,5 @@ SUBS = [
         budget={'quick': 150, 'thorough': 1000}, sample=_sample,
         fingerprint=lambda c: fingerprint([c['universe'], c['selection'], c['outsiders']]),
         require_tags=('outsider-extends-selected', 'outsider-shares-ids', 'mode:default',
-                      'mode:lang')),
+                      'mode:lang', 'outsider-shares-ili-with-placeholder')),
 ]
